@@ -269,6 +269,11 @@ class Emitter:
                 self.emit("int 0", f"store {slot}", f"{top}:", f"load {slot}", f"int {s.n}", "<", f"bz {end}")
                 self.seq(s.body)
                 self.emit(f"load {slot}", "int 1", "+", f"store {slot}", f"b {top}", f"{end}:")
+            elif s.kind == "dowhile":
+                # the body comes first: a body that starts with a call makes the loop header a callsub block
+                self.emit(f"{top}:")
+                self.seq(s.body)
+                self.emit(f"txn {OPAQUE_FIELDS[(3 + self.nlabel) % len(OPAQUE_FIELDS)]}", f"bnz {top}")
             else:
                 self.emit(f"{top}:", f"txn {OPAQUE_FIELDS[(3 + self.nlabel) % len(OPAQUE_FIELDS)]}", f"bz {end}")
                 self.seq(s.body)
@@ -423,7 +428,7 @@ def _stmts(budget: int, depth: int, subs: Sequence[str], in_loop: bool, hows: Se
                                     continue
                                 yield If(cond, then, els, via), 1 + nthen + nels
         if allow_loop and not in_loop:
-            for kind in ("counter", "opaque"):
+            for kind in ("counter", "opaque", "dowhile"):
                 for nb in range(1, budget):
                     for body in _seqs_exact(nb, depth - 1, subs, True, ("assert", "bz_reject")):
                         if terminates(body):
@@ -655,6 +660,10 @@ def layout_programs(cond: Any, cond2: Optional[Any] = None) -> List[Tuple[str, s
     # loop with the check inside / after
     out.append(("loop-check-inside", prog(["int 0", "store 1", "top:", "load 1", "int 2", "<", "bz out"] + c + ["assert", "load 1", "int 1", "+", "store 1", "b top", "out:", "int 1", "return"])))
     out.append(("loop-check-after", prog(["top:"] + c2 + ["bz out", "b top", "out:"] + c + ["assert", "int 1", "return"])))
+    # do-while loops whose header block ends with a call; the callee may approve itself or return
+    out.append(("dowhile-call", prog(["top:", "callsub sub"] + c2 + ["bnz top", "int 1", "return", "sub:"] + c + ["bz back", "int 1", "return", "back:", "retsub"])))
+    out.append(("dowhile-call-2", prog(["int 0", "top:", "callsub sub", "int 1", "+", "dup", "int 3", "<", "bnz top", "pop"] + c + ["assert", "int 1", "return", "sub:"] + c2 + ["bz back", "int 1", "return", "back:", "retsub"])))
+    out.append(("loop-call-in-body", prog(["top:"] + c2 + ["bz out", "callsub sub", "b top", "out:", "int 1", "return", "sub:"] + c + ["bz back", "int 1", "return", "back:", "retsub"])))
     # switch / match dispatch
     out.append(("switch", prog(["txn NumAppArgs", "switch a b", "err", "a:"] + c + ["assert", "int 1", "return", "b:", "int 1", "return"])))
     out.append(("match", prog(["int 3", "int 5", "txn NumAppArgs", "match a b", "err", "a:"] + c + ["assert", "int 1", "return", "b:", "int 1", "return"])))
